@@ -93,6 +93,9 @@ func pickEntry(r *gen.Rng, root *tree.SNode, src, tgt *tree.Cont) entry {
 	for depth := 0; depth < 3; depth++ {
 		var opts []entry
 		for _, kid := range cur.s.Kids {
+			if len(kid.Guard) > 1 {
+				continue // nodes under a nested choice are not reachable by Find (recorded under C08)
+			}
 			switch kid.Kind {
 			case tree.KCont:
 				t, ok := cur.tgt.Conts[kid.Name]
@@ -275,4 +278,51 @@ func C03(ctx *core.Ctx) error {
 	r := gen.New(ctx.Seed)
 	opts := tree.GenOpts{MaxDepth: 3, MaxKids: 4, Lists: true, Defaults: true, LeafLists: true}
 	return editScenarios(ctx, r, ctx.Scale(60, 1500), opts, []int{0, 0, 1, 2})
+}
+
+func init() { Registry["C09"] = C09 }
+
+// C09: at most one case of a choice holds data - schemas with choices (several per container,
+// nested in cases, inside lists), histories of upserts alternating between cases.
+func C09(ctx *core.Ctx) error {
+	ctx.Imports = "Val.Model Tree.Schema Tree.Editor Check.C03Check"
+	ctx.Rule = "history = generated schema with choices (several per container, nested in cases, inside lists, cases holding leaves, containers and lists) x 1..6 successive upserts (From/Into, root/container/list-entry entry points) of independently generated conforming sources into one target; each step is one case (target before, source, observed target after); distinct by SHA-256; non-trivial = source holds data"
+	r := gen.New(ctx.Seed)
+	opts := tree.GenOpts{MaxDepth: 2, MaxKids: 3, Lists: true, Defaults: true, LeafLists: true, Choices: true, ChoiceHeavy: true}
+	count := ctx.Scale(50, 1200)
+	for n := 0; n < count; n++ {
+		yang, m, root, err := tree.GenSchema(r.Fork(uint64(n)), opts)
+		if err != nil {
+			return fmt.Errorf("generated schema does not load: %v\n%s", err, yang)
+		}
+		dr := r.Fork(uint64(5000 + n))
+		tgt := tree.GenData(dr, root, 60, 2)
+		steps := 1 + dr.Intn(6)
+		for k := 0; k < steps; k++ {
+			src := tree.GenDataAgainst(dr, root, 40+dr.Intn(55), 2, tgt)
+			e := pickEntry(dr, root, src, tgt)
+			if e.kind == "list" {
+				e = entry{kind: "root", s: root, src: src, tgt: tgt}
+			}
+			before := map[string]int{}
+			tgt.ChosenCases(root, "", before)
+			if err := runEdit(ctx, m, root, yang, src, tgt, e, 0, dr.Bool()); err != nil {
+				return err
+			}
+			after := map[string]int{}
+			tgt.ChosenCases(root, "", after)
+			switched := false
+			for k, v := range before {
+				if w, ok := after[k]; ok && w != v {
+					switched = true
+				}
+			}
+			if switched {
+				ctx.Count("step:switches-a-case")
+			} else {
+				ctx.Count("step:no-switch")
+			}
+		}
+	}
+	return nil
 }
